@@ -260,9 +260,9 @@ def common_prefix_headers(a, b):
 # the cached base chain
 # ---------------------------------------------------------------------------------------------------
 
-BASE_LEN = 1100
+BASE_LEN = 2100            # two check-pointable 1000-header chunks + 100 on top (first 1100 = one chunk + 100)
 BASE_SEED = 0xC07
-MINER_VERSION = 4
+MINER_VERSION = 5
 GENESIS_TIME = 1_500_000_000
 # time deltas covering: far negative, around the lower clamp (<=6 -> 132), the trunc-vs-floor cases
 # (13, 14, 15 ...), no change (143..157), around the upper clamp (>=750 -> 225), far positive
